@@ -712,7 +712,7 @@ def part_C(rng, tier, V, replay=None):
                 pts.append((float(lon[i, j]), float(lat[i, j]), o))
             sterms.append("(%s, %s, (%s, %s, %s, %s), [%s])" % (
                 g_Z(W), g_Z(H), g_Z(x0), g_Z(y0), g_Z(cw), g_Z(ch),
-                "; ".join("(%s, %s, %s)" % (gq(a), gq(b), "None" if o is None else f"Some ({g_Z(o[0])}, {g_Z(o[1])})")
+                "; ".join("(%s, %s, %s)" % (gq(a), gq(b), "(@None (Z * Z))" if o is None else f"(Some ({g_Z(o[0])}, {g_Z(o[1])}))")
                           for a, b, o in pts)))
             sinfo.append((case, ic, pts))
         gterms.append("(%s, %s, %s, %s, [%s])" % (g_Z(W), g_Z(H), g_list([g_Z(c) for c in cols]), g_list([g_Z(r) for r in rows]),
